@@ -14,7 +14,7 @@ import warnings
 import numpy as np
 from scipy import stats
 
-from ..engine import R
+from ..engine import R, HarnessError
 
 ID = "C02"
 TITLE = "Distribution weights match their documented densities, limits and widths"
@@ -52,7 +52,54 @@ def cases(ctx):
             for pd in pds:
                 for mode in ("relative", "absolute"):
                     out.append({"type": t, "centre": c, "pd": pd, "mode": mode})
-    return out + _iface_cases(ctx)
+    return out + _iface_cases(ctx) + _thread_cases(ctx)
+
+
+def _thread_cases(ctx):
+    """part C: two THREADS asking for weights at the same time (every interleaving of source lines of weights.py)"""
+    out = []
+    for t in TYPES:
+        out.append({"kind": "threads", "types": [t, t], "bound": 1 if ctx.quick else 2})
+    out.append({"kind": "threads", "types": ["gaussian", "gaussian"], "bound": 2})
+    out.append({"kind": "threads", "types": ["gaussian", "schulz"], "bound": 1 if ctx.quick else 2})
+    return out
+
+
+def _run_threads(case, ctx):
+    """
+    Two requests of different point count, width, n-sigma and centre are issued from two threads; every schedule of
+    their source lines in weights.py with at most `bound` preemptions is executed (mc.threadsched) and each thread
+    must receive exactly what it receives when it runs alone.
+    """
+    from sasmodels import weights
+    from .. import threadsched
+    r = R()
+    ta, tb = case["types"]
+    reqs = [(ta, 5, 0.1, 3.0, 100.0, (0.0, np.inf), True), (tb, 9, 0.3, 2.0, 40.0, (0.0, np.inf), True)]
+    ref = [weights.get_weights(*q) for q in reqs]
+
+    def make():
+        return [lambda q=q: weights.get_weights(*q) for q in reqs]
+
+    def judge(run):
+        bad = []
+        for i, (st, val) in enumerate(run.results):
+            if st != "ok":
+                bad.append("thread %d raised %s" % (i, val))
+            elif not (len(val[0]) == len(ref[i][0]) and np.array_equal(val[0], ref[i][0]) and np.array_equal(val[1], ref[i][1])):
+                bad.append("thread %d asked for get_weights%r and received %d values in [%g, %g] (alone: %d values in [%g, %g])"
+                           % (i, reqs[i], len(val[0]), val[0][0] if len(val[0]) else np.nan, val[0][-1] if len(val[0]) else np.nan,
+                              len(ref[i][0]), ref[i][0][0], ref[i][0][-1]))
+        return bad
+    n_exec, n_traces, problems, capped = threadsched.explore(make, [weights.__file__], case["bound"], judge)
+    if capped:
+        raise HarnessError("thread exploration capped")
+    for msg, choices, trace in problems[:1]:
+        r.fail("two threads, schedule %s (points %s ...): %s" % (choices, trace[:6], msg),
+               {"interface": "threads", "clause": "concurrent-requests", "types": "%s/%s" % (ta, tb)}, count_eval=False)
+    r.ok(nt=True, n=n_exec, outcome="threads:%s" % ("ok" if not problems else "differs"), trans=n_traces,
+         branches=["threads", "threads:bound%d" % case["bound"]])
+    return r
 
 
 def _npts(ctx):
@@ -331,6 +378,8 @@ def run_case(case, ctx):
         return _run_mesh(case, ctx)
     if case.get("kind") == "sv":
         return _run_sv(case, ctx)
+    if case.get("kind") == "threads":
+        return _run_threads(case, ctx)
     if case.get("kind") == "cross":
         return _run_cross(case, ctx)
     from sasmodels import weights
@@ -474,4 +523,5 @@ def finish(ctx, report):
     report.require("iface-mesh", 100, "direct_model.get_mesh per-parameter distributions")
     report.require("iface-orientation", 20, "absolute-width (orientation) parameters through get_mesh")
     report.require("iface-sasview", 100, "SasView-style setParam sequences")
+    report.require("threads", 8, "two concurrent requests under the thread scheduler")
     report.require("iface-cross", 4, "same-named parameters with different limits in two models")
